@@ -16,3 +16,11 @@ C("C04", "model_checking",
   "and no two distinct registers or argument arrays may share memory. Plus the full constructor lattice len(times) x len(values) in 0..4.",
   "canonical key = reference models of all registers + identity partition (futures depend on nothing else); deepcopy preserves aliasing "
   "between registers; result class of '+' not constrained", "DESIGN.md §4 C04")
+C("C06", "exploration",
+  "stateless choice-tree exploration (full product of operation sequences x read masks) on real objects with a differential fresh-object oracle and an eager reference model",
+  "Every operation sequence up to depth 2 (quick) / 3-4 (thorough) over a 15-operation alphabet of public mutators (shift, scalings, two "
+  "filters, three set_buffers forms, resample, times assignment, with_times sub/super grid, + another signal, copy) times every read mask "
+  "is executed on 7 kinds of function-backed signals (plain, ZHS, AVZ, ARZ, FFT/Full thermal noise with owned randomness), and every "
+  "attribute-assignment sequence x read mask on the four tracers and three path classes. Each execution is compared with the same "
+  "history replayed on a fresh object without intermediate reads; plain FunctionSignals are also compared with an eager longhand-DFT model.",
+  "in-place element writes and mutation of the ice object are outside the alphabet; exhaustive only up to the stated depth", "DESIGN.md §4 C06")
